@@ -275,13 +275,13 @@ def py_binop(M, interp, op, a, b, node):
         try:
             return a % (b if not isinstance(b, list) else tuple(b))
         except Exception:
-            return a
+            raise AnalysisError('%-formatting of these values not modelled', node)
     if op == 'BitOr' and isinstance(a, dict) and isinstance(b, dict):
         return {**a, **b}
     if op in ('BitAnd', 'BitOr') and isinstance(a, bool) and isinstance(b, bool):
         return (a and b) if op == 'BitAnd' else (a or b)
-    if op in ('BitAnd', 'BitOr') and isinstance(a, (set, frozenset)):
-        return (a & b) if op == 'BitAnd' else (a | b)
+    if op in ('BitAnd', 'BitOr', 'Sub', 'BitXor') and isinstance(a, (set, frozenset)) and isinstance(b, (set, frozenset)):
+        return {'BitAnd': O.and_, 'BitOr': O.or_, 'Sub': O.sub, 'BitXor': O.xor}[op](a, b)
     if isinstance(a, (int, Fr, float, bool)) and isinstance(b, (int, Fr, float, bool)):
         x, y = M.conc_num(a, node), M.conc_num(b, node)
         both_int = isinstance(a, int) and isinstance(b, int)
@@ -469,7 +469,19 @@ def eq_model(M, interp, a, b, node):
                 return a is b
             return bool(r)
         except KeyError:
-            return a is b
+            if a is b:
+                return True
+            ta = a.tuple_items()
+            if ta is not None:
+                # a typing.NamedTuple instance is a tuple: equal to any tuple with equal items
+                tb = b.tuple_items() if isinstance(b, Instance) else (list(b) if isinstance(b, tuple) else None)
+                return tb is not None and len(ta) == len(tb) and all(eq_model(M, interp, x, y, node) for x, y in zip(ta, tb))
+            if a.cls.record_fields is not None and getattr(a.cls, 'dataclass_eq', True):
+                # a dataclass (eq=True is the default) compares its fields, for instances of the same class
+                if not (isinstance(b, Instance) and b.cls is a.cls):
+                    return False
+                return all(eq_model(M, interp, a.attrs.get(n), b.attrs.get(n), node) for n, _ in a.cls.record_fields)
+            return False
     if isinstance(b, Instance):
         return eq_model(M, interp, b, a, node)
     if isinstance(a, ExtRef) and isinstance(b, ExtRef):
@@ -722,6 +734,10 @@ def getitem_model(M, interp, obj, key, node):
         raise AbsRaise(ExcVal('TypeError', ("'NoneType' object is not subscriptable",)), node)
     if isinstance(obj, ExtRef) and obj.path.split('.')[0] in ('typing', 'collections', 'builtins'):
         return obj          # generic alias in an annotation: Union[...], List[...]
+    if isinstance(obj, ClassVal) and getattr(obj, 'enum_members', None) is not None:
+        if key in obj.enum_members:
+            return obj.enum_members[key]
+        raise AbsRaise(ExcVal('KeyError', (key,)), node)
     if isinstance(obj, Instance):
         try:
             f = obj.cls.lookup('__getitem__')
